@@ -194,6 +194,9 @@ def builtinStringReplace (E : Eng) (rx : RX) (target : List Nat) (repl : Repl) :
     | .str rv => fun mt => expand target mt rv
     | .report => fun mt => reportArgs (replacerArgs target mt)
     | .const ret => fun _ => ret
+    -- builtin_string.go:312-317: the arguments are string Values (undefined for an unmatched group), the
+    -- offset an int Value, the last one stringValue(target): the receiver AFTER its conversion
+    | .types => fun mt => typeReport [115, 116, 114, 105, 110, 103] mt true
   let (result, lastIndex) := replaceLoop target f found 0 []
   let result := if lastIndex ≠ target.length then result ++ target.drop lastIndex else result
   (rx, .str (jsStr result))
@@ -251,6 +254,7 @@ def step (E : Eng) (target : List Nat) (rx : RX) : Step → RX × Res
   | .replaceS r => builtinStringReplace E rx target (.str r)
   | .replaceF => builtinStringReplace E rx target .report
   | .replaceK r => builtinStringReplace E rx target (.const r)
+  | .replaceT => builtinStringReplace E rx target .types
   | .split l => builtinStringSplit E rx target l
   | .setLI v => ({ rx with lastIndex := v }, .undef)
 
